@@ -132,6 +132,23 @@ func c15case(fail func(string, ...any), tr *transcript, k *gen.Kind, vals []ref.
 	if err != nil || !bytes.Equal(b0.Buf, want.B) {
 		fail("%s: EncodeColumn(empty buffer) of %d rows: err=%v, bytes differ from reference at %d", k.T.Name, len(vals), err, firstDiff(b0.Buf, want.B))
 	}
+	// The encoded bytes are a copy: reusing the column afterwards leaves them alone.
+	if len(vals) > 0 {
+		c3 := fill(k, vals, false)
+		var bz proto.Buffer
+		err := safely(func() error {
+			c3.Column().EncodeColumn(&bz)
+			c3.Column().Reset()
+			for i := len(vals) - 1; i >= 0; i-- {
+				c3.Append(vals[i])
+			}
+			c3.Append(vals[0])
+			return nil
+		})
+		if err != nil || !bytes.Equal(bz.Buf, want.B) {
+			fail("%s: bytes encoded into a zero-capacity buffer changed when the column was reset and refilled (err=%v, first difference at %d)", k.T.Name, err, firstDiff(bz.Buf, want.B))
+		}
+	}
 	b1 := proto.Buffer{Buf: append([]byte(nil), junk...)}
 	err = safely(func() error { fill(k, vals, true).Column().EncodeColumn(&b1); return nil })
 	tr.line("%s|enc-junk%d|%s|%s", id, len(junk), errClass(err), sha(b1.Buf))
